@@ -10,8 +10,9 @@ import (
 
 func init() {
 	register(&Check{
-		ID:    "C09",
-		Level: "exploration",
+		ID:        "C09",
+		DeepQuick: true,
+		Level:     "exploration",
 		Rule: "every list of 1..3 types over a core of ~70 types (primitives, collections, tuples, objects with shared / disjoint / optional attributes, nestings, dynamic placeholders), every quadruple over a 16-type sub-core, in safe and unsafe mode, " +
 			"x every generated value (known, null, unknown) of each input type fed through the returned conversions; distinct by the canonical strings of the type list; non-trivial = lists with at least two different types",
 		Assumptions: []string{"reference conformance from the checker's type model", "values per input type: <= 9 known plus null and unknown"},
